@@ -46,7 +46,8 @@ def impl_eval(args):
     out = {}
     for system, pm in configs:
         out[f"{system}/{pm}"] = core.impl_answers(names, keyed(case["base"]), keyed(case["queries"]),
-                                                  system, weakly=case["weakly"], pmaxsat=pm, sig=case["sig"])
+                                                  system, weakly=case["weakly"], pmaxsat=pm, sig=case["sig"],
+                                                  **(case.get("inference_kwargs") or {}))
     return out
 
 
@@ -86,7 +87,7 @@ def compare(case, impl, model, configs):
 def recheck_one(case):
     """re-run implementation and model on a single-config case (used by shrinker and replay)"""
     cfg = [(case["system"], case["pmaxsat"])]
-    base_case = {k: case[k] for k in ("n", "sig", "weakly", "base", "queries")}
+    base_case = {k: case[k] for k in ("n", "sig", "weakly", "base", "queries", "inference_kwargs") if k in case}
     impl = impl_eval((base_case, cfg))
     resp = core.driver_batch([driver_line(base_case)])[0]
     model = decode(resp, len(base_case["queries"]))
@@ -282,6 +283,18 @@ def gen_cases(ctx, count, n_range, k_range, weakly_modes, want=("ok",), q_per=6,
                 queries.append((("!", b), a))
             else:
                 queries.append(core.gen_cond(rng, nq, depth, consts))
+        if conds and rng.random() < 0.08:
+            # the same conditional listed twice (two keys): multiplicities matter for lexicographic counts and impacts
+            j = rng.randrange(len(conds))
+            conds = list(conds[:j + 1]) + [conds[j]] + list(conds[j + 1:])
+        if nq > n and conds and q_per >= 2 and queries:
+            # antecedents made only of atoms the base does not mention, consequents the base constrains
+            x = ("a", n)
+            b1, b2 = rng.choice(conds)[0], rng.choice(conds)[0]
+            queries = list(queries)
+            queries[-1] = (b1, x)
+            if len(queries) >= 2:
+                queries[-2] = (b2 if rng.random() < 0.6 else ("!", b2), ("!", x))
         keys = list(range(1, len(conds) + 1))
         if rng.random() < rekey:
             # any distinct integer keys, one- and two-digit ones mixed, not ascending
@@ -291,6 +304,13 @@ def gen_cases(ctx, count, n_range, k_range, weakly_modes, want=("ok",), q_per=6,
         if info["status"] not in want:
             continue
         case["_info"] = info
+        r = rng.random()
+        if r < 0.06:
+            # the answer must not depend on how the batch is evaluated or labelled: parallel evaluation, generous budgets that
+            # never fire, display options
+            case["inference_kwargs"] = rng.choice([{"multi_inference": True}, {"multi_inference": True, "inference_timeout": 600},
+                                                   {"inference_timeout": 600, "preprocessing_timeout": 600}, {"total_timeout": 900},
+                                                   {"queries_name": "batch-7", "decimals": 3}, {"_warmup": True}, {"_warmup": True}])
         cases.append(case)
     return cases
 
